@@ -83,6 +83,8 @@ func checkC10(c *Ctx) {
 		return
 	}
 	eff := NewEffects(ep)
+	r.Rule("R10h", "URL-binding violations name the bound field, as the body-validation violations do (shared with C02/R02c)", 3)
+	binderViolationFields(c, ep, "R10h")
 
 	// ---- R10g who may write an error response past the hook
 	{
